@@ -19,13 +19,15 @@ ASSUMPTIONS = [
     'without equations has no condition/pre/post/update_nnps; one level of sub-groups',
     'start_idx/stop_idx are non-negative and within the array',
 ]
-READY = False
+READY = True
 DESIGN_REF = '6/C03'
 TECHNIQUE = 'Lean 4 proof over a hand-written model + trace correspondence through the real code-generation pipeline'
 LEVEL_TEXT = ('Lean 4 theorems for every program, every history-dependent oracle (condition/convergence outcomes, '
               'array sizes, named indices, neighbour lists) about a model that transcribes MegaGroup._make_data, the '
               'mako template and its helper: implTrace_eq_specTrace (the generated evaluation performs exactly the '
-              'documented sequence of calls), megagroup_preserves_order, dest_range, iteration_bounds and friends; '
+              'documented sequence of calls), megagroup_preserves_order, dest_range, iteration_bounds, '
+              'skipped_when_condition_false, pre_post_once_per_pass, src_particle_calls and the excluded-point '
+              'theorems (iteration_unbounded_when_min_gt_max, empty_top_group_is_skipped); '
               'the model is tied to the code on every run by tracer equations compiled through the real pipeline, and '
               'the property statement is evaluated independently (Python transcription + brute-force neighbours) on '
               'the observed calls to produce replays.')
